@@ -162,6 +162,10 @@ def zeroCleaned (X : Sub) (r : Row) : Row :=
 def cnt (X : Sub) (r : Row) : Nat :=
   r.1.np X + (match r.2 with | some c => c.mNp X | none => 0)
 
+/-- what the code computes: both columns are `uint32`, so `npoutX + npoutX_merge` is taken modulo 2^32
+(numpy / astropy Column addition wraps) before `util.cumsum` accumulates it into `uint64` -/
+def cnt32 (X : Sub) (r : Row) : Nat := cnt X r % 2 ^ 32
+
 /-- `out = np.empty(len(arr)+1); total = util.cumsum(arr, out, initial=True, final=True, offset=off)` -/
 def cumsumArr (arr : List Nat) (off : Nat) : Except Fault (List Nat × Nat) :=
   match Cumsum.cumsum arr (arr.length + 1) true true off with
@@ -172,7 +176,7 @@ def newIdx : List Sub → List Row → Nat → Except Fault (List Row × List (S
   | [], tbl, _ => .ok (tbl, [])
   | X :: rest, tbl, off =>
     let tbl' := tbl.map (zeroCleaned X)
-    match cumsumArr (tbl'.map (cnt X)) off with
+    match cumsumArr (tbl'.map (cnt32 X)) off with
     | .error e => .error e
     | .ok (new, off') =>
       match newIdx rest tbl' off' with
@@ -263,6 +267,163 @@ def diff : List Nat → List Nat
   | a :: b :: rest => (b - a) :: diff (b :: rest)
   | _ => []
 
+/-- `np.diff(new).astype(np.uint32)` -/
+def diff32 (l : List Nat) : List Nat := (diff l).map (· % 2 ^ 32)
+
+/-! ### the same loops with every offset read through the index rule, as coded -/
+
+/-- `a[i]` for a non-negative loop index -/
+def getAt {β} (a : List β) (i : Nat) : Except Fault β :=
+  match idx a.length (i : Int) with
+  | .error e => .error e
+  | .ok k => match a[k]? with
+    | some v => .ok v
+    | none => .error .oob
+
+/-- `for i in range(N_halo)` of the njit kernels, iteration `i` with `n` iterations left: reads
+`slab_read_offsets[i]`, `slab_read_lens[i]` (the row), `slab_write_offsets[i]`, `slab_write_offsets[i+1]` -/
+def zipRowsI.go {α} (rawCol : Bool) (nSub : Nat) (X : Sub) (part cl : List α) (rows : List Row) (swo : List Nat) :
+    Nat → Nat → Except Fault (List (Nat × α))
+  | _, 0 => .ok []
+  | i, n + 1 =>
+    match getAt rows i with
+    | .error e => .error e
+    | .ok r =>
+    let hp := pySlice part (r.1.start X) (r.1.start X + r.1.np X)
+    match getAt swo i with
+    | .error e => .error e
+    | .ok wstart =>
+    match getAt swo (i + 1) with
+    | .error e => .error e
+    | .ok wend =>
+    let vs := min wstart nSub
+    let vl := min wend nSub - vs
+    match assign rawCol vs vl hp with
+    | .error e => .error e
+    | .ok w1 =>
+      let second : Except Fault (List (Nat × α)) :=
+        match r.2 with
+        | some c =>
+          let cp := pySlice cl (c.mStart X) (c.mStart X + c.mNp X)
+          let woff := r.1.np X
+          assign rawCol (vs + min woff vl) (vl - woff) cp
+        | none => .ok []
+      match second with
+      | .error e => .error e
+      | .ok w2 =>
+        match zipRowsI.go rawCol nSub X part cl rows swo (i + 1) n with
+        | .error e => .error e
+        | .ok rest => .ok (w1 ++ w2 ++ rest)
+
+/-- `N_halo = len(slab_read_offsets); for i in range(N_halo): …` -/
+def zipRowsI {α} (rawCol : Bool) (nSub : Nat) (X : Sub) (part cl : List α) (rows : List Row) (swo : List Nat) :
+    Except Fault (List (Nat × α)) :=
+  zipRowsI.go rawCol nSub X part cl rows swo 0 rows.length
+
+/-- `for i in range(len(self.superslab_inds))`: the particle files of superslab `i`,
+`halo_file_offsets[i]`, `halo_file_offsets[i+1]` -/
+def zipSlabsI.go {α} (rawCol : Bool) (nSub : Nat) (X : Sub) (tbl : List Row) (new : List Nat)
+    (slabs : List (Slab α)) (hfo : List Nat) : Nat → Nat → Except Fault (List (Nat × α))
+  | _, 0 => .ok []
+  | i, n + 1 =>
+    match getAt slabs i with
+    | .error e => .error e
+    | .ok s =>
+    match getAt hfo i with
+    | .error e => .error e
+    | .ok h0 =>
+    match getAt hfo (i + 1) with
+    | .error e => .error e
+    | .ok h1 =>
+    let rows := pySlice tbl h0 h1
+    let swo := pySlice new h0 (h1 + 1)
+    match zipRowsI rawCol nSub X (s.part X) (s.cleanPart X) rows swo with
+    | .error e => .error e
+    | .ok w =>
+      match zipSlabsI.go rawCol nSub X tbl new slabs hfo (i + 1) n with
+      | .error e => .error e
+      | .ok rest => .ok (w ++ rest)
+
+def zipSlabsI {α} (rawCol : Bool) (nSub : Nat) (X : Sub) (tbl : List Row) (new : List Nat)
+    (slabs : List (Slab α)) (hfo : List Nat) : Except Fault (List (Nat × α)) :=
+  zipSlabsI.go rawCol nSub X tbl new slabs hfo 0 slabs.length
+
+/-- `for AB in load_AB` -/
+def zipAllI {α} (rawCol : Bool) (nSub : Nat) (tbl : List Row) (slabs : List (Slab α)) (hfo : List Nat) :
+    List (Sub × List Nat) → Except Fault (List (Nat × α))
+  | [] => .ok []
+  | (X, new) :: rest =>
+    match zipSlabsI rawCol nSub X tbl new slabs hfo with
+    | .error e => .error e
+    | .ok w =>
+      match zipAllI rawCol nSub tbl slabs hfo rest with
+      | .error e => .error e
+      | .ok ws => .ok (w ++ ws)
+
+/-! ### `_read_halo_info` with the preallocated table
+
+`N_halos = sum(N_halo_per_file)` rows are allocated (`np.empty`: cells are `none`), after ALL files were opened
+and the cleaned/regular lengths asserted.  File `i` is unpacked into the window
+`self.halos[N_written : N_written + len(raw)]`, then `halos[:nmask] = halos[mask]` copies the kept rows to
+the front of that window, `N_written += nmask`; finally `self.halos = self.halos[:N_written]`. -/
+
+def allRowsOf {α} (cleaned : Bool) : List (Slab α) → Except Fault (List (List Row))
+  | [] => .ok []
+  | s :: ss =>
+    match rowsOf cleaned s with
+    | .error e => .error e
+    | .ok r =>
+      match allRowsOf cleaned ss with
+      | .error e => .error e
+      | .ok rs => .ok (r :: rs)
+
+/-- the per-file loop as a write list into the allocation: returns the writes in program order, the final
+`N_written` and the post-filter `N_halo_per_file` -/
+def compact : List (List Row) → List (Option (List Bool)) → Nat →
+    Except Fault (List (Nat × Row) × Nat × List Nat)
+  | [], _, nW => .ok ([], nW, [])
+  | rows :: rest, m :: ms, nW =>
+    let wLoad := (List.range' nW rows.length).zip rows
+    let filtered : Except Fault (List Row × List (Nat × Row)) :=
+      match m with
+      | none => .ok (rows, [])
+      | some m =>
+        if m.length ≠ rows.length then .error .badLength
+        else
+          let kept := maskRows rows m
+          .ok (kept, (List.range' nW kept.length).zip kept)
+    match filtered with
+    | .error e => .error e
+    | .ok (kept, wMask) =>
+      match compact rest ms (nW + kept.length) with
+      | .error e => .error e
+      | .ok (ws, nW', nPer) => .ok (wLoad ++ wMask ++ ws, nW', kept.length :: nPer)
+  | _ :: _, [], _ => .error .rejected
+
+/-- every exposed cell must have been written (an unwritten cell would expose `np.empty` garbage) -/
+def allSome {β} : List (Option β) → Option (List β)
+  | [] => some []
+  | some v :: rest => (allSome rest).map (v :: ·)
+  | none :: _ => none
+
+/-- the halo table after `_read_halo_info` and `N_halo_per_file` -/
+def readTable {α} (cleaned : Bool) (slabs : List (Slab α)) (mks : List (Option (List Bool))) :
+    Except Fault (List Row × List Nat) :=
+  match allRowsOf cleaned slabs with
+  | .error e => .error e
+  | .ok rowss =>
+    let nHalos := (rowss.map List.length).foldr (· + ·) 0
+    match compact rowss mks 0 with
+    | .error e => .error e
+    | .ok (ws, nW, nPer) =>
+      if ws.all (fun w => w.1 < nHalos) then
+        let alloc : List (Option Row) := List.replicate nHalos none
+        let tbl := applyWrites alloc (ws.map (fun w => (w.1, some w.2)))
+        match allSome (tbl.take nW) with
+        | some rows => .ok (rows, nPer)
+        | none => .error .rejected
+      else .error .oob
+
 structure Result (α : Type) where
   /-- the kept halo rows (all other columns), in table order -/
   rows : List Row
@@ -275,6 +436,35 @@ structure Result (α : Type) where
 
 /-- the load, together with the zipper's write list in program order -/
 def loadW {α} (o : Opts) (slabs : List (Slab α)) : Except Fault (Result α × List (Nat × α)) :=
+  match masksFor o.masks slabs.length with
+  | .error e => .error e
+  | .ok mks =>
+  match readTable o.cleaned slabs mks with
+  | .error e => .error e
+  | .ok (tbl, nPer) =>
+  let subs := loadList o
+  if subs = [] then .ok ({ rows := tbl, nPer := nPer, idx := [], sub := [] }, [])
+  else
+  match newIdx subs tbl 0 with
+  | .error e => .error e
+  | .ok (tblZ, news) =>
+  match nSubsamp news with
+  | .error e => .error e
+  | .ok nSub =>
+  match cumsumArr nPer 0 with
+  | .error e => .error e
+  | .ok (hfo, _) =>
+  match zipAllI o.rawCol nSub tblZ slabs hfo news with
+  | .error e => .error e
+  | .ok ws =>
+    .ok ({ rows := tbl, nPer := nPer,
+           idx := news.map (fun p => (p.1, p.2.dropLast, diff32 p.2)),
+           sub := applyWrites (List.replicate nSub none) (ws.map (fun w => (w.1, some w.2))) }, ws)
+
+/-- the same load written with the structural forms of the loops (`readAll`, `zipRows`, `zipSlabs`): the form
+the proofs work on; `Lemmas/C01.lean` proves the loops equal, faults included (`zipRowsI_eq`, `zipSlabsI_eq`)
+and the table equal whenever the compaction goes through (`readTable_eq`) -/
+def loadWS {α} (o : Opts) (slabs : List (Slab α)) : Except Fault (Result α × List (Nat × α)) :=
   match masksFor o.masks slabs.length with
   | .error e => .error e
   | .ok mks =>
@@ -299,7 +489,7 @@ def loadW {α} (o : Opts) (slabs : List (Slab α)) : Except Fault (Result α × 
   | .error e => .error e
   | .ok ws =>
     .ok ({ rows := tbl, nPer := nPer,
-           idx := news.map (fun p => (p.1, p.2.dropLast, diff p.2)),
+           idx := news.map (fun p => (p.1, p.2.dropLast, diff32 p.2)),
            sub := applyWrites (List.replicate nSub none) (ws.map (fun w => (w.1, some w.2))) }, ws)
 
 def load {α} (o : Opts) (slabs : List (Slab α)) : Except Fault (Result α) :=
@@ -338,11 +528,14 @@ def ownCnt (X : Sub) (r : Row) : Nat :=
   | some c => (if c.nTotal = 0 then 0 else r.1.np X) + c.mNp X
   | none => r.1.np X
 
-/-- well-formed row: the ranges the specification mentions lie inside their files -/
+/-- well-formed row: the ranges the specification mentions lie inside their files, and the halo has fewer
+than 2^32 particles in the subsample (`npout + npout_merge` is a `uint32` sum) -/
 def rowWF {α} (X : Sub) (part cl : List α) (r : Row) : Bool :=
-  match r.2 with
-  | some c => (c.nTotal = 0 || r.1.start X + r.1.np X ≤ part.length) && c.mStart X + c.mNp X ≤ cl.length
-  | none => r.1.start X + r.1.np X ≤ part.length
+  (match r.2 with
+   | some c => (c.nTotal = 0 || r.1.start X + r.1.np X ≤ part.length) && c.mStart X + c.mNp X ≤ cl.length
+   | none => r.1.start X + r.1.np X ≤ part.length) &&
+  -- the sum of the two uint32 columns does not wrap
+  decide (ownCnt X r < 2 ^ 32)
 
 /-- well-formed input: the compaction goes through (clean lists as long as halo lists, one mask of the right
 length per superslab) and every kept row of every superslab is well-formed for every loaded subsample -/
@@ -434,11 +627,8 @@ def showResult (r : Except Fault (Result Nat × List (Nat × Nat))) : String :=
   | .ok (r, ws) =>
     s!"ok nper={showList r.nPer} rows={showList (r.rows.flatMap showRow)} a={showIdx .A r.idx} b={showIdx .B r.idx} sub={showList (r.sub.map showOpt)} widx={showList (ws.map (·.1))}"
 
-/-- requests:
-`load <cleaned> <loadA> <loadB> <rawCol> <nslabs> (<H> <C> <PA> <PB> <CA> <CB> <M>)*` with `H`, `C` flat lists of
-5 numbers per halo, `P*`/`C*` token lists, `M` = `x` (no filter), `-` (empty mask) or a 0/1 string;
-`lc <H pairs> <parts> <M>`. -/
-def handle (args : List String) : String :=
+/-- a `load …` request as options and superslabs -/
+def parseLoad? (args : List String) : Option (Opts × List (Slab Nat)) :=
   match args with
   | "load" :: cl :: la :: lb :: rc :: n :: rest =>
     match parseBool? cl, parseBool? la, parseBool? lb, parseBool? rc, parseNat? n with
@@ -451,10 +641,26 @@ def handle (args : List String) : String :=
           else (ss.mapM (fun p => parseMask? p.2)).map some
         match masks? with
         | some masks =>
-          showResult (loadW { cleaned := cl, loadA := la, loadB := lb, rawCol := rc, masks := masks } (ss.map (·.1)))
-        | none => "bad-op"
-      | none => "bad-op"
-    | _, _, _, _, _ => "bad-op"
+          some ({ cleaned := cl, loadA := la, loadB := lb, rawCol := rc, masks := masks }, ss.map (·.1))
+        | none => none
+      | none => none
+    | _, _, _, _, _ => none
+  | _ => none
+
+/-- requests:
+`load <cleaned> <loadA> <loadB> <rawCol> <nslabs> (<H> <C> <PA> <PB> <CA> <CB> <M>)*` with `H`, `C` flat lists of
+5 numbers per halo, `P*`/`C*` token lists, `M` = `x` (no filter), `-` (empty mask) or a 0/1 string;
+`lc <H pairs> <parts> <M>`. -/
+def handle (args : List String) : String :=
+  match args with
+  | "load" :: _ =>
+    match parseLoad? args with
+    | some (o, slabs) => showResult (loadW o slabs)
+    | none => "bad-op"
+  | ["cnt32", np, mnp] =>
+    match parseNat? np, parseNat? mnp with
+    | some np, some mnp => toString (cnt32 .A (⟨0, np, 0, 0, 0⟩, some ⟨0, mnp, 0, 0, 1⟩))
+    | _, _ => "bad-op"
   | ["lc", h, p, m] =>
     match parseNatList? h, parseNatList? p with
     | some h, some p =>
